@@ -59,6 +59,33 @@ Theorem tbuf_size_bounded : forall progs sched,
 Proof. exact Proofs.tbuf_size_bound. Qed.
 Print Assumptions tbuf_size_bounded.
 
+(* one consumer round size(); empty(); consume() with any producer steps in between: the
+   batch is at least as long as size() said and non-empty if empty() said false - this is
+   what the extracted round_ok checks on every recorded round *)
+Theorem tbuf_round_consistent : forall s ps1 ps2,
+  forallb is_prod ps1 = true -> forallb is_prod ps2 = true ->
+  let s' := tb_run s (TCons KSize :: ps1 ++ TCons KEmpty :: ps2 ++ [TCons KConsume]) in
+  exists n e b, ts_obs s' = ts_obs s ++ [TONum n; TOBool e] /\ ts_batches s' = ts_batches s ++ [b]
+                /\ ts_buf s' = [] /\ round_ok (n, e, b) = true.
+Proof. exact Proofs.tbuf_round_proof. Qed.
+Print Assumptions tbuf_round_consistent.
+
+(* the acceptance function run (extracted) on the histories recorded by the stress harness:
+   accepted histories are exactly the complete histories of the model *)
+Theorem tbuf_accept_sound : forall progs bs,
+  tb_accept progs bs = true ->
+  exists sched, let s := tb_run (tb_init progs) sched in
+    ts_batches s = bs /\ ts_buf s = [] /\ forall p, nth p (ts_rem s) [] = [].
+Proof. exact Proofs.tb_accept_sound_proof. Qed.
+Print Assumptions tbuf_accept_sound.
+
+Theorem tbuf_accept_complete : forall progs sched,
+  let s := tb_run (tb_init progs) sched in
+  (forall p, nth p (ts_rem s) [] = []) -> ts_buf s = [] ->
+  tb_accept progs (ts_batches s) = true.
+Proof. exact Proofs.tb_accept_complete_proof. Qed.
+Print Assumptions tbuf_accept_complete.
+
 (* the reflective lockset check is sound and complete for the discipline *)
 Theorem lockset_sound : forall t, lockset_ok t = true -> roles_total t /\ race_free t.
 Proof. exact Proofs.lockset_ok_sound. Qed.
@@ -83,3 +110,14 @@ Example tbuf_example :
   /\ ts_buf s = [(2, 32%N)]
   /\ ts_obs s = [TONum 2; TOBool false; TONum 1].
 Proof. vm_compute. auto. Qed.
+
+(* the acceptance function accepts that history's completion and rejects a lost, a duplicated
+   and a reordered element *)
+Example tbuf_accept_example :
+  tb_accept [[10; 11]; [20]]%N [[(0, 10%N); (1, 20%N)]; []; [(0, 11%N)]] = true
+  /\ tb_accept [[10; 11]; [20]]%N [[(0, 10%N); (1, 20%N)]] = false
+  /\ tb_accept [[10; 11]; [20]]%N [[(0, 10%N); (1, 20%N)]; [(0, 10%N); (0, 11%N)]] = false
+  /\ tb_accept [[10; 11]; [20]]%N [[(0, 11%N); (1, 20%N)]; [(0, 10%N)]] = false
+  /\ tb_accept_obs [(2%N, false, [(0, 10%N); (1, 20%N)]); (0%N, true, [])] = true
+  /\ tb_accept_obs [(2%N, false, [(0, 10%N)])] = false.
+Proof. vm_compute. repeat split. Qed.
